@@ -13,12 +13,27 @@ type PlacedComment struct {
 	Line int
 	// SameLine is true when the comment shares the line with the preceding token.
 	SameLine bool
+	// Alone is true when it is the only comment at its placeholder.
+	Alone bool
 }
 
 // LineCommentSafeCtx: inline placeholders at which a `#`/`//` comment is handled correctly by the formatter
 // (the `else` keyword is printed on a new line); line comments are drawn there even when they are avoided
 // at the other inline placeholders.
 var LineCommentSafeCtx = map[string]bool{"if:before-else": true, "if:before-else-if": true, "if:before-elseif": true, "if:before-elsif": true}
+
+// LineCommentSafeAloneCtx: placeholders in front of an expression the formatter prints through its chunk
+// buffer, which breaks the line after a `#`/`//` comment — correct as long as that comment is the only
+// comment at its placeholder (a second comment is joined to it on the same line: the known finding).
+// Measured with TestFmtSurvey (VERIF_SURVEY=1): no failure of C03/C14/C15 in > 4000 single-comment cases.
+var LineCommentSafeAloneCtx = map[string]bool{"set:after-op": true, "add:after-op": true, "log:after-keyword": true,
+	"backend:after-assign": true, "director:backend-after-assign": true,
+	"group:open": true, "table:after-colon": true, "table:before-colon": true, "table:before-comma": true}
+
+// LineCommentSafe: a `#`/`//` comment at this placeholder is handled correctly by the formatter.
+func LineCommentSafe(ctx string, alone bool) bool {
+	return LineCommentSafeCtx[ctx] || alone && LineCommentSafeAloneCtx[ctx]
+}
 
 // Rendered is the result of laying out a token stream.
 type Rendered struct {
@@ -154,9 +169,9 @@ func (g *G) Layout(toks []Tok) *Rendered {
 						sameLine = false
 					}
 					w.write(pre)
-					allowLine := !(g.cfg.NoInlineLineComments && !between) || LineCommentSafeCtx[tok.Ctx]
+					allowLine := !(g.cfg.NoInlineLineComments && !between) || LineCommentSafe(tok.Ctx, ncom == 1)
 					c := g.commentText(serial, allowLine)
-					out.Comments = append(out.Comments, PlacedComment{Text: c, Slot: tok.Slot, Ctx: tok.Ctx, Line: w.line, SameLine: sameLine})
+					out.Comments = append(out.Comments, PlacedComment{Text: c, Slot: tok.Slot, Ctx: tok.Ctx, Line: w.line, SameLine: sameLine, Alone: ncom == 1})
 					w.write(c)
 					if isLineComment(c) {
 						w.write("\n")
